@@ -16,7 +16,7 @@ TECHNIQUE = "fresh-model differential after every operation of a multi-scenario 
 RULE = ("base model: 2 named lookups, 3 constants, arrayed converter, 2 stocks; 2 managers x 3 scenarios registered from ONE model object; "
         "operations: register scenario (constants / only-some points), batch run (equation subsets), session with begin-settings, "
         "steps with constant / points settings, session left open, cache reset, REST /run with settings (constants, points, runspecs), "
-        "evaluate base elements; ALL histories of length<=2 (quick) / <=3 (thorough) over an 11-letter alphabet + seeded random histories "
+        "evaluate base elements; ALL histories of length<=2 (quick) / <=3 (thorough) over a 12-letter alphabet + seeded random histories "
         "of length 4-14. distinct_nontrivial = distinct histories containing a points/constants change of one scenario followed by a "
         "comparison of another scenario that uses the same lookup/constant without overriding it.")
 ASSUMPTIONS = ["a scenario that received settings with an individual STEP is not compared with its own fresh build afterwards (whether step settings outlive the session is not stated); all OTHER scenarios and the base model still are",
@@ -29,7 +29,7 @@ P2 = [[0.0, 0.0], [10.0, 5.0], [40.0, 6.0]]
 BASE = dict(constants=dict(c1=2.0, c2=1.0, c3=0.25), points=dict(p1=P1, p2=P2), run=(0.0, 5.0, 1.0))
 EQS = ["s1", "s2", "f1", "b1", "c1", "c2", "c3", "total"]
 ALPHA = ["reg_const", "reg_pts", "run_A0", "sess_A0_const", "sess_B1_step_pts", "sess_A1_step_const", "reset_A0",
-         "rest_B0", "eval_base", "sess_open_A2", "rest_A0_runspecs"]
+         "rest_B0", "eval_base", "sess_open_A2", "rest_A0_runspecs", "sess_A01_step_first"]
 
 
 def build(constants, points, run):
@@ -161,6 +161,15 @@ class World:
             b.run_step(settings={"smA": {"s1": {"constants": {"c3": v / 10}}}})
             b.end_session()
             self.tainted.add(("smA", "s1"))
+            self.touched.append("constants")
+        elif name == "sess_A01_step_first":
+            # a session over two scenarios; the step settings name only the first one
+            b.begin_session(scenarios=["s0", "s1"], scenario_managers=["smA"], equations=["s2", "s1"], starttime=0.0, dt=1.0)
+            b.run_step()
+            b.run_step(settings={"smA": {"s0": {"constants": {"c1": v}, "points": {"p2": pts}}}})
+            b.run_step()
+            b.end_session()
+            self.tainted.add(("smA", "s0"))
             self.touched.append("constants")
         elif name == "reset_A0":
             b.reset_scenario_cache(scenario_manager="smA", scenario="s0")
